@@ -272,6 +272,37 @@ def component_cases(ctx: Ctx):
                     lines.append('misc_predict ' + enc([terms_by_out[j], [q(v) for v in x]]))
                     meta.append(({**case0, 'mode': mode, 'x': x, 'output': j}, float(np.ravel(pred[f'y{j}'])[0]),
                                  terms_by_out[j], lagr.band_flags(allnodes, xf)))
+                # explicitly given weights and index sets: (a) a named set with the caller's own weight tree (every weight tripled and
+                # negated); (b) an explicit SUBSET of the indices together with the full weight tree: only the indices of the set contribute
+                if rng.random() < 0.4 and len(list(iset)) >= 1:
+                    import copy as _copy
+                    xin_ = {v: np.array(x[k]) for k, v in enumerate(names)}
+                    from amisc.component import MiscTree
+                    t3 = MiscTree()
+                    for a_, b_, w_ in list(tree):
+                        t3[a_, b_] = -3.0 * float(w_)
+                    try:
+                        pa = comp.predict(xin_, index_set=mode, misc_coeff=t3)
+                        va = float(np.ravel(pa['y0'])[0])
+                        terms_a = [[q(Fraction(-3) * unq(t_[0])), t_[1], t_[2]] for t_ in terms_by_out[0]]
+                        lines.append('misc_predict ' + enc([terms_a, [q(v) for v in x]]))
+                        meta.append(({**case0, 'mode': mode, 'x': x, 'output': 0, 'explicit': 'named set, weights = -3 x stored'}, va,
+                                     terms_a, lagr.band_flags(allnodes, xf)))
+                        members = list(iset)
+                        sub = rng.sample(members, rng.randint(1, len(members)))
+                        from amisc.component import IndexSet
+                        pb = comp.predict(xin_, index_set=IndexSet(sub), misc_coeff=tree)
+                        order_ = [(tuple(a_), tuple(b_)) for a_, b_ in iset]
+                        subk = {(tuple(a_), tuple(b_)) for a_, b_ in sub}
+                        terms_b = [t_ for t_, key_ in zip(terms_by_out[0], order_) if key_ in subk]
+                        if 'y0' in pb and any(unq(t_[0]) != 0 for t_ in terms_b):       # a subset of zero-weight indices contributes nothing
+                            vb = float(np.ravel(pb['y0'])[0])
+                            lines.append('misc_predict ' + enc([terms_b, [q(v) for v in x]]))
+                            meta.append(({**case0, 'mode': mode, 'x': x, 'output': 0, 'explicit': f'index subset {sorted(subk)} with the full weight tree'},
+                                         vb, terms_b, lagr.band_flags(allnodes, xf)))
+                        ctx.count('explicit_weight_predictions')
+                    except Exception as e:
+                        ctx.violate('C05:explicit-weights-predict-raises', f'{type(e).__name__}: {e}', {**case0, 'mode': mode, 'x': x})
         if n == 0 or rng.random() < 0.3:
             # a single-fidelity full-tensor surrogate passes through every training point it uses
             pass
